@@ -57,6 +57,15 @@ def gen_cases(tier, seed):
     for z in DIGESTS:
         for key in keys[:6] + [rng.randrange(1, N)]:
             yield "scripted_key", {"k": hex(rng.randrange(1, N)), "z": hex(z), "key": hex(key), "pre0": False}
+    # digests that make the verifier's partial points u1*G and u2*Q two DIFFERENT points with opposite (or equal) y: z = -/+ lambda^i r d.
+    # Perfectly valid signatures; the library's own verifier has to add exactly that pair.
+    from .common import LAMBDA
+    for j in range(8 if tier == "quick" else 40):
+        k_, d_ = rng.randrange(1, N), rng.randrange(1, N)
+        r_ = secp.pub(k_)[0] % N
+        lam = [LAMBDA, LAMBDA * LAMBDA % N][j % 2]
+        z_ = ((-lam if j % 4 < 2 else lam) * r_ * d_) % N
+        yield "scripted_key", {"k": hex(k_), "z": hex(z_ + (N if j % 8 >= 4 and z_ + N < (1 << 256) else 0)), "key": hex(d_), "pre0": False, "endo": True}
     # r boundary classes: top byte exactly 00 (short r), 7f, 80, 81, ff -- ground with the reference EC
     for top in (0x00, 0x7F, 0x80, 0x81, 0xFF):
         for rep in range(3 if tier == "quick" else 12):
@@ -113,7 +122,7 @@ def gen_cases(tier, seed):
 
 def required(tier):
     return {"api.signed": 300, "cli.signed": 20, "cli.sighash_default_form": 3, "mismatch.refused": 8, "scripted.signed": 300, "class.s_short_topbit": 20, "class.digest_ge_n": 10,
-            "class.retry_s0": 1, "class.r_top_80": 3, "class.r_top_00": 3, "class.r_top_7f": 3, "class.inner_retry_draw0": 5, "reuse.pairs_checked": 100,
+            "class.retry_s0": 1, "class.endo_digest": 6, "class.r_top_80": 3, "class.r_top_00": 3, "class.r_top_7f": 3, "class.inner_retry_draw0": 5, "reuse.pairs_checked": 100,
             "small.signed": 10000, "small.p43.keys": 30, "small.retry_branch": 10,
             "contract:sign.range_low_s": 1000, "contract:der_encode_sig.strict_roundtrip": 300,
             "contract:sig.flag_suffix": 300}
@@ -227,6 +236,8 @@ def run_case(kind, params, ctx):
         else:
             d = int(params["key"], 16)
             script.append(k)
+            if params.get("endo"):
+                ctx.count("class.endo_digest")
         with RngShim(script=script, then="real") as sh:
             try:
                 res = em.sign(d, z)
